@@ -321,6 +321,16 @@ def namesOfNode : Nat → Node → List String
       | .graph g => g.inputs ++ g.outputs ++ g.inits.map (·.1) ++ g.nodes.flatMap (namesOfNode d)
       | _ => [])
 
+/-- `_update_names_read`: the names read by nodes — their inputs and, for nested graphs, the graph outputs and the
+    names read by their nodes (to nesting depth `d`) -/
+def namesReadBy : Nat → List Node → List String
+  | 0, ns => ns.flatMap (·.ins)
+  | d + 1, ns =>
+    ns.flatMap (fun n => n.ins ++ n.attrs.flatMap (fun a =>
+      match a.2 with
+      | .graph g => g.outputs ++ namesReadBy d g.nodes
+      | _ => []))
+
 def namesOfGraph (d : Nat) (g : Graph) : List String :=
   g.inputs ++ g.outputs ++ g.inits.map (·.1) ++ g.nodes.flatMap (namesOfNode d)
 
@@ -607,8 +617,9 @@ structure ModelP where
 def translateFunction (o : Opts) (d : Nat) (f : FunctionP) (st : St) : R :=
   let st := { st with attrRen := [] }
   let (renamed, st) := translateVars o st f.usedOrder
-  let st := { st with namesUsed := renamed }
+  let st := { st with namesUsed := renamed, namesRead := f.outputs ++ namesReadBy d f.nodes }
   let funName := cleanup f.name
+  let st := { st with localFns := (funName, f.domain, f.name) :: st.localFns }
   -- attribute parameters are registered first (fix 9e40403), then the inputs are translated
   let st := { st with attrRen := f.attrs.reverse.map (·, none) ++ st.attrRen,
                       namesUsed := f.attrs.reverse ++ st.namesUsed }
@@ -617,7 +628,7 @@ def translateFunction (o : Opts) (d : Nat) (f : FunctionP) (st : St) : R :=
   match nodesLoop (translateNode o f.opsets d 1) f.nodes st with
   | .error e => .error e
   | .ok (body, st) =>
-    let (rets, st) := translateVars o st f.outputs
+    let (rets, st) := translateVarRefs o st f.outputs
     let st := { st with remaps := st.remaps.drop 1 }
     let dflt := defaultOpsetArg o f.opsets
     let deco := "deco " ++ opsetName f.domain 1 ++ (if dflt == "" then "" else "," ++ dflt)
@@ -637,14 +648,14 @@ def ModelP.funName (m : ModelP) : String :=
 /-- body, signature and `return` of `_translate_graph` at a given indentation level.  The main graph gets its own
     remapping scope (pushed before the body, popped after the `return` line) — fix e68372f. -/
 def graphProg (o : Opts) (d : Nat) (m : ModelP) (funName : String) (indent : Nat) (st : St) : R :=
-  let st := { st with remaps := [] :: st.remaps }
+  let st := { st with remaps := [] :: st.remaps, namesRead := m.graph.outputs ++ namesReadBy d m.graph.nodes }
   -- the body is translated first; the signature then goes through the exporter's renamer (fix efaa07e)
   match graphBody o (translateNode o m.opsets d indent) m.graph st with
   | .error e => .error e
   | .ok (body, st) =>
     let (sigNames, st) := translateVars o st m.graph.inputs
     let sig := "sig " ++ funName ++ "(" ++ comma sigNames ++ "|)"
-    let (rets, st) := translateVars o st m.graph.outputs
+    let (rets, st) := translateVarRefs o st m.graph.outputs
     let st := { st with remaps := st.remaps.drop 1 }
     .ok (["deco " ++ defaultOpsetArg o m.opsets, sig] ++ body ++ [line indent ("return " ++ comma rets)], st)
 
@@ -661,12 +672,33 @@ def translateGraph (o : Opts) (d : Nat) (m : ModelP) (st0 : St) : R :=
   | .ok (prog, st) =>
     if st.skipped.isEmpty then
       (if o.skipInit then graphProg o d m funName 1 st0 else .ok (prog, st))
-    else if st.skipped.all (fun p => randOk p.2) then
+    else
+      -- `generate_rand` has a fallback for every dtype since 718c87b (zeros through `make_tensor`)
       .ok (["wrap " ++ comma (st.skipped.map (·.1))] ++ prog, st)
-    else .error .randInit
 
-def exportModel (o : Opts) (d : Nat) (m : ModelP) : Except Err (List String) :=
-  (translateGraph o d m {}).map (·.1)
+/-- a set of names as a duplicate-free list -/
+def dedup : List String → List String
+  | [] => []
+  | x :: xs => if x ∈ dedup xs then dedup xs else x :: dedup xs
+
+/-- `_reserve_global_names` + the type names `_import_onnx_types` adds: the module-level names of the generated text
+    that `_make_unique_name_mapper` never produces (fix 7e6d802).  `tys` are the type names of the graph inputs and
+    outputs (types are not part of this model: supplied by the harness). -/
+def reservedNames (tys : List String) (opsetLists : List (List (String × Nat))) (funDomains : List String) : List String :=
+  (["np", "TensorProto", "make_tensor", "script", "external_tensor", "Opset", "value_infos"]
+    ++ opsetLists.flatMap (fun l => l.map (fun dv => opsetName dv.1 dv.2))
+    ++ funDomains.map (fun dmn => opsetName dmn 1) ++ tys) |> dedup
+
+/-- the initial table of the unique-name mapper: the reserved names count as used; their key `""` is never
+    looked up (`_translate_onnx_var("")` is `None` and does not reach the mapper) -/
+def reservedTable (res : List String) : List (String × String) := res.map (fun r => ("", r))
+
+/-- `export()` on a ModelProto without model-local functions; `tys`: type names of the graph inputs/outputs -/
+def exportModelT (tys : List String) (o : Opts) (d : Nat) (m : ModelP) : Except Err (List String) :=
+  (translateGraph o d m { uniq := reservedTable (reservedNames tys [m.opsets] []) }).map (·.1)
+
+/-- the same when no type name is imported -/
+def exportModel (o : Opts) (d : Nat) (m : ModelP) : Except Err (List String) := exportModelT [] o d m
 
 /-- `_translate_opset_imports_of`: one line per opset import — `from onnxscript.onnx_opset import opsetN` for the
     standard domains, `alias = Opset('domain', version)` otherwise; for a FunctionProto additionally the function's
@@ -693,13 +725,50 @@ def functionsLoop (o : Opts) (d : Nat) : List FunctionP → St → R
       | .error e => .error e
       | .ok (p2, st) => .ok (p1 ++ p2, st)
 
-def exportModelF (o : Opts) (d : Nat) (fs : List FunctionP) (m : ModelP) : Except Err (List String) :=
-  match functionsLoop o d fs {} with
+/-- the functions a function calls (in all nested graphs), as `(domain, op_type)` keys, in order of occurrence -/
+def calledKeys : Nat → List Node → List (String × String)
+  | 0, ns => ns.map (fun n => (n.domain, n.op))
+  | d + 1, ns =>
+    ns.flatMap (fun n => (n.domain, n.op) :: n.attrs.flatMap (fun a =>
+      match a.2 with
+      | .graph g => calledKeys d g.nodes
+      | _ => []))
+
+/-- `visit` of `_callees_first`: depth-first, a callee is placed before its caller; `pending` breaks cycles -/
+def cfVisit (byId : List ((String × String) × FunctionP)) (d : Nat) :
+    Nat → List (String × String) → List (String × String) → List ((String × String) × FunctionP) →
+    List ((String × String) × FunctionP)
+  | 0, _, _, ordered => ordered
+  | fuel + 1, keys, pending, ordered =>
+    keys.foldl (fun ord key =>
+      match byId.lookup key with
+      | some f =>
+        if (ord.lookup key).isSome || pending.contains key then ord
+        else
+          let ord := cfVisit byId d fuel (calledKeys d f.nodes) (key :: pending) ord
+          ord ++ [(key, f)]
+      | none => ord) ordered
+
+/-- `_callees_first` (fix 41fb399): a function follows the functions it calls; the given order otherwise -/
+def calleesFirst (d : Nat) (fs : List FunctionP) : List FunctionP :=
+  -- `by_id` is a dict: for equal keys the last function wins
+  let byId := fs.reverse.map (fun f => ((f.domain, f.name), f))
+  let ordered := fs.foldl (fun ord f =>
+    let key := (f.domain, f.name)
+    if (ord.lookup key).isSome then ord
+    else
+      let ord := cfVisit byId d (fs.length + 1) (calledKeys d f.nodes) [key] ord
+      ord ++ [(key, f)]) []
+  if ordered.length == fs.length then ordered.map (·.2) else fs
+
+def exportModelF (tys : List String) (o : Opts) (d : Nat) (fs : List FunctionP) (m : ModelP) : Except Err (List String) :=
+  let st0 : St := { uniq := reservedTable (reservedNames tys (m.opsets :: fs.map (·.opsets)) (fs.map (·.domain))) }
+  match functionsLoop o d (calleesFirst d fs) st0 with
   | .error e => .error e
   | .ok (pf, st) => (translateGraph o d m st).map (fun r => pf ++ r.1)
 
 def exportFunction (o : Opts) (d : Nat) (f : FunctionP) : Except Err (List String) :=
-  (translateFunction o d f {}).map (·.1)
+  (translateFunction o d f { uniq := reservedTable (reservedNames [] [f.opsets] [f.domain]) }).map (·.1)
 
 /-- The renaming the exporter applies to the value names `ns` of a *main graph* when they are
     requested in the order `ns` (no attribute parameters, no remapping scope): the table
